@@ -377,6 +377,52 @@ macro_rules! rand_backend {
                             }
                         }
                     }
+                    "brk_c" => {
+                        // compressed blind-rotation key (C19): one compressed GGSW of the constant s_lwe[i] per LWE coefficient, each under
+                        // its own branch seed drawn from the master stream; the bundle has no decompression routine of its own, so its
+                        // serialisation is cut back into GGSWCompressed objects (public readers) which are decompressed one by one
+                        use poulpy_bin_fhe::blind_rotation::{BlindRotationKeyCompressed, BlindRotationKeyCompressedEncryptSk, BlindRotationKeyLayout, CGGI};
+                        let nl = gu(c, "nlwe", 4) as usize;
+                        let mut skl = LWESecret::alloc(Degree(nl as u32));
+                        if nl % 2 == 0 {
+                            skl.fill_binary_block(2, &mut Source::new(seed32(0x5100 + sk_id)));
+                        } else {
+                            skl.fill_binary_prob(0.5, &mut Source::new(seed32(0x5100 + sk_id)));
+                        }
+                        o.cells[0]["sk_lwe"] = json!(skl.raw().to_vec());
+                        let lay = BlindRotationKeyLayout { n_glwe: deg, n_lwe: Degree(nl as u32), base2k: Base2K(b), k: TorusPrecision(k), dnum: Dnum(dnum), rank: Rank(rank) };
+                        let mut kc = BlindRotationKeyCompressed::<Vec<u8>, CGGI>::alloc(&lay);
+                        m.blind_rotation_key_compressed_encrypt_sk(&mut kc, &skp, &skl, seed_xa, &ni, &mut source_xe, scratch.borrow());
+                        let mut bytes: Vec<u8> = vec![];
+                        kc.write_to(&mut bytes).unwrap();
+                        let mut kc2 = BlindRotationKeyCompressed::<Vec<u8>, CGGI>::alloc(&lay);
+                        kc2.read_from(&mut std::io::Cursor::new(&bytes)).unwrap();
+                        let mut bytes2: Vec<u8> = vec![];
+                        kc2.write_to(&mut bytes2).unwrap();
+                        o.ser_same = bytes == bytes2;
+                        let mut one: Vec<u8> = vec![];
+                        GGSWCompressed::alloc_from_infos(&lay).write_to(&mut one).unwrap();
+                        let head = bytes.len() - nl * one.len();
+                        let mut master = Source::new(seed_xa);
+                        for i in 0..nl {
+                            let mut gc = GGSWCompressed::alloc_from_infos(&lay);
+                            gc.read_from(&mut &bytes[head + i * one.len()..head + (i + 1) * one.len()]).unwrap();
+                            let mut g = GGSW::alloc_from_infos(&lay);
+                            m.decompress_ggsw(&mut g, &gc);
+                            for r in 0..dnum as usize {
+                                for cc in 0..rank as usize + 1 {
+                                    o.cells.push(dump_glwe_ref(&g.at(r, cc)));
+                                }
+                            }
+                            for sd in gc.seed().iter() {
+                                o.seeds.push(sd.to_vec());
+                            }
+                            let mut branch = Source::new(master.new_seed());
+                            for _ in 0..dnum as usize * (rank as usize + 1) {
+                                o.drawn.push(branch.new_seed().to_vec());
+                            }
+                        }
+                    }
                     "tgk" => {
                         // GGLWE-to-GGSW key: one GGLWE per secret column i, whose columns are s_i * s_j
                         let mut kd = GGLWEToGGSWKey::alloc(deg, Base2K(b), TorusPrecision(k), Rank(rank), Dnum(dnum), Dsize(dsize));
@@ -741,10 +787,10 @@ pub fn run_rand(mods: &mut RMods, c: &Value, out: &mut dyn FnMut(Value)) {
                 let rec = match mods.exec(be, c, (2, 2, xa_id, xe_id)) {
                     Ok(o) => {
                         let wrapper = !o.refc.is_empty();
-                        let refc = if wrapper { o.refc.clone() } else if c["layout"] == "ggsw_c" { vec![] } else { reference_cells(mods, be, c, &o.seeds, xe_id, 2, 2) };
+                        let refc = if wrapper { o.refc.clone() } else if c["layout"] == "ggsw_c" || c["layout"] == "brk_c" { vec![] } else { reference_cells(mods, be, c, &o.seeds, xe_id, 2, 2) };
                         // the seeds the master stream yields, in drawing order (public Source API)
                         let mut master = Source::new(seed32(0x7000 + xa_id));
-                        let drawn: Vec<Vec<u8>> = if wrapper { o.drawn.clone() } else { (0..o.seeds.len()).map(|_| master.new_seed().to_vec()).collect() };
+                        let drawn: Vec<Vec<u8>> = if !o.drawn.is_empty() { o.drawn.clone() } else { (0..o.seeds.len()).map(|_| master.new_seed().to_vec()).collect() };
                         json!({"aux": o.cells[0], "cells": o.cells[1..].to_vec(), "ref": refc, "stored": o.seeds, "drawn": drawn,
                                "master": seed32(0x7000 + xa_id).to_vec(), "ser_same": o.ser_same, "panic": ""})
                     }
